@@ -93,6 +93,15 @@ def monitor(pid, year, base, assign, r, asked):
                 viols.append(('outcome-differs', f'variant {kind}: {_diff(r, rr)}', dict(variant=kind)))
     elif pid == 'C06':
         add(monitors.c06(r))
+    elif pid == 'C10':
+        if r.exc is not None:
+            cls, msg = r.exc
+            if cls in ('RecursionError', 'AssertionError', 'AttributeError', 'NameError', 'KeyError', 'UnboundLocalError', 'IndexError'):
+                viols.append((f'solve-raised-{cls}', f'solve() raised {cls}: {msg[:120]}', None))
+            elif cls == 'NotImplementedError':
+                from hv import e4
+                if not any(msg == f'Form {a} is not supported.' for a in e4.ABSENT_FORMS):
+                    viols.append(('unexpected-unsupported-form', msg, None))
     elif pid == 'C12':
         add(monitors.c12_store(r))
     elif pid == 'C13':
